@@ -32,7 +32,7 @@ var c12Lens = []int{0, 1, 250, 251, 255, 256, 65535, 65536, 70000}
 func (C12) Explore(x *kernel.Explorer, seed uint64) {
 	r := kernel.NewRNG(seed, 0xc12)
 	for i := 0; i < 4 && !x.Expired(); i++ {
-		plan := &kernel.Plan{Prop: "C12", Seed: kernel.Mix(seed, uint64(i)), Swarm: map[string]int64{"idlenth": int64([]int{0, 0, 0, 2, 3}[r.Intn(5)]),
+		plan := &kernel.Plan{Prop: "C12", Seed: kernel.Mix(seed, uint64(i)), Swarm: map[string]int64{"idlenth": int64([]int{0, 0, 0, 2, 3}[r.Intn(5)]), "fetch": int64([]int{0, 0, 1, 2}[r.Intn(4)]),
 			"chunk": []int64{0, 0, 1, 3}[r.Intn(4)], "part": int64(1 + r.Intn(2)), "colseed": int64(r.Uint32()), "mysql": int64(r.Intn(3) / 2), "depeof": int64(r.Intn(2)), "rawmy": int64(r.Intn(2)), "reexec": int64(r.Intn(2)), "wyield": int64(r.Intn(2))}}
 		n := 2 + r.Intn(6)
 		if r.Intn(400) == 0 {
